@@ -61,10 +61,23 @@ func NewListenerSet(listeners []net.Listener) (*ListenerSet, error) {
 		if err != nil {
 			return nil, fmt.Errorf("unable to get file from listener %d: %w", i, err)
 		}
-		// File() puts the file description into blocking mode. Put it back and
-		// leave it that way, otherwise it will race with child processes
-		// trying to accept from it.
-		if err := syscall.SetNonblock(int(f.Fd()), true); err != nil {
+		// Fd() puts the file description, which the children share, into
+		// blocking mode - and os/exec calls it again for every child it
+		// starts, racing with the children already accepting from the
+		// socket: an accept() that blocks in the kernel can no longer be
+		// interrupted by closing the listener, so that child never finishes
+		// its shutdown. Re-wrap the descriptor while it is in blocking mode,
+		// so that the os.File no longer switches modes, then put the
+		// description into non-blocking mode and leave it that way.
+		fd, err := syscall.Dup(int(f.Fd()))
+		f.Close()
+		if err != nil {
+			return nil, fmt.Errorf("unable to get file from listener %d: %w", i, err)
+		}
+		syscall.CloseOnExec(fd)
+		f = os.NewFile(uintptr(fd), fmt.Sprintf("listener %d", i))
+		if err := syscall.SetNonblock(fd, true); err != nil {
+			f.Close()
 			return nil, fmt.Errorf("unable to get file from listener %d: %w", i, err)
 		}
 		s.files = append(s.files, f)
